@@ -6,7 +6,7 @@ HERE = os.path.dirname(os.path.dirname(os.path.abspath(__file__)))
 sys.path.insert(0, HERE)
 from sa.props import PROPS
 
-lines = ['', 'Current rule list per property (generated from `sa/props.py`; rule names as in sections 3.1–3.11; the evidence file',
+lines = ['', 'Current rule list per property (generated from `sa/props.py`; rule names as in sections 3.1–3.12; the evidence file',
          'of each property gives the instance counts of the last run):', '']
 for pid in sorted(PROPS):
     names = [f.__name__.upper() for f in PROPS[pid]['rules']]
